@@ -3,5 +3,5 @@ EXTENDS Concurrent
 MCSeq == [c \in Calls |-> "r_" \o c]
 \* bound the history so the state space is finite: at most MaxDone completed calls
 CONSTANT MaxDone
-Bound == Cardinality(done) <= MaxDone
+Bound == ndone <= MaxDone
 ========================================================================
